@@ -86,6 +86,123 @@ def purity_e2_work(doc):
     return n, len(seen), fails
 
 
+# --------------------------------------------------------------------------- 1c. purity of constructed objects
+
+CONSTRUCTED = {
+    "list2": lambda: _mk([1, 2]),
+    "list1": lambda: _mk([1]),
+    "list0": lambda: _mk([]),
+    "list-nested": lambda: _mk([1, [2, 3]]),
+    "list-of-str": lambda: _mk(["a", "b", "c"]),
+    "set1": lambda: _mkset({"a": 1}),
+    "set0": lambda: _mkset({}),
+    "set-list": lambda: _mkset({"a": [1, 2], "b": {"c": [3]}}),
+    "str": lambda: _mk("s"),
+    "int": lambda: _mk(-1),
+}
+
+
+def _mk(v):
+    from nix_manipulator.expressions.expression import coerce_expression
+
+    return coerce_expression(v)
+
+
+def _mkset(d):
+    from nix_manipulator.expressions import AttributeSet
+
+    return AttributeSet.from_dict(d)
+
+
+def _hole_sites(src):
+    """(parent, field name, list index | None) of every scope-less Identifier named `x` in the document,
+    DFS order (scope bindings of let-wrapped nodes included)."""
+    import dataclasses
+
+    out = []
+    seen = set()
+
+    def is_hole(v):
+        return type(v).__name__ == "Identifier" and getattr(v, "name", None) == "x" and not getattr(v, "scope", None)
+
+    def visit(parent, fname, idx, val):
+        if is_hole(val):
+            out.append((parent, fname, idx))
+        else:
+            walk(val)
+
+    def walk(obj):
+        if id(obj) in seen or not dataclasses.is_dataclass(obj) or isinstance(obj, type):
+            return
+        seen.add(id(obj))
+        for f in dataclasses.fields(obj):
+            if f.name in ("scope_state", "before", "after"):
+                continue
+            try:
+                val = getattr(obj, f.name)
+            except Exception:
+                continue
+            if isinstance(val, list):
+                for i, it in enumerate(val):
+                    visit(obj, f.name, i, it)
+            else:
+                visit(obj, f.name, None, val)
+
+    for i, e in enumerate(src.expressions):
+        visit(src, "expressions", i, e)
+    return out
+
+
+def constructed_work(cname):
+    """Every hole of construct `cname` (default layout and first-gap-on-a-new-line layout) receives
+    every constructed value; the document is then rebuilt three times."""
+    from nix_manipulator import parse
+
+    n = 0
+    fails = []
+    prog0 = g.P(cname, tuple([g.X] * g.n_holes(cname)))
+    texts = [("default", g.render(prog0))]
+    for lname, text in texts:
+        if obs.has_error(text):
+            continue
+        try:
+            k_sites = len(_hole_sites(parse(text)))
+        except Exception:
+            continue
+        for k in range(k_sites):
+            for vname, mk in CONSTRUCTED.items():
+                outs = []
+                snaps = []
+                try:
+                    for _ in range(2):  # two independent constructions
+                        src = parse(text)
+                        parent, fname, idx = _hole_sites(src)[k]
+                        val = mk()
+                        if idx is None:
+                            setattr(parent, fname, val)
+                        else:
+                            getattr(parent, fname)[idx] = val
+                        before = repr(obs.snapshot(src))
+                        r1 = src.rebuild()
+                        r2 = src.rebuild()
+                        r3 = src.rebuild()
+                        after = repr(obs.snapshot(src))
+                        outs.append((r1, r2, r3))
+                        snaps.append((before, after))
+                except Exception:
+                    continue
+                n += 1
+                (r1, r2, r3), (before, after) = outs[0], snaps[0]
+                sig = f"{cname}|site{k}|{vname}"
+                if not (r1 == r2 == r3):
+                    fails.append(("rebuilds-differ", sig, f"construct {text!r}, `x` no. {k} replaced by constructed {vname}: rebuilds {r1!r} / {r2!r} / {r3!r}"))
+                elif before != after:
+                    fails.append(("rebuild-mutates-tree", sig, f"construct {text!r}, `x` no. {k} replaced by constructed {vname}: object fields differ after rebuild() (text {r1!r})"))
+                if outs[0][0] != outs[1][0]:
+                    fails.append(("nondeterministic", sig, f"construct {text!r}, `x` no. {k} replaced by constructed {vname}: two identical constructions render {outs[0][0]!r} and {outs[1][0]!r}"))
+    return n, fails
+
+
 # --------------------------------------------------------------------------- 2. schedules
 
 DOC_A = "{\n  # c1\n  a = 1; # e1\n\n  b = [\n    1\n    2\n  ];\n}\n"
@@ -257,7 +374,7 @@ def pool_docs():
     """A pool of small documents that together exercise every construct with same-line and own-line
     comments, plus sequences whose items are path / string / number literals followed by a comment."""
     docs = []
-    atoms = [" # c§\n", " /* c§ */ ", "\n# c§\n"]
+    atoms = [" # c§\n", " /* c§ */ ", "\n# c§\n", "\n\n", " # c§\n\n", "\n\n# c§\n\n"]  # incl. blank-line gaps with and without a comment
     for prog in g.programs(1):
         for case in g.cases_for(prog, [" "] + atoms, 1, file_gaps=False):
             adm = g.admit(case)
@@ -394,6 +511,12 @@ def run(prop: str, tier: str) -> core.Report:
         for cls, dname, h, detail in r[2]:
             hs = " ; ".join(e2.show_op(o) for o in h)
             fl.append(core.Failure(prop="C15", sig=f"{cls}|{dname}|{hs}", cls=cls, case={"kind": "c15-e2", "doc_name": dname, "history": [list(o) for o in h]}, detail=f"{dname} [{hs}]: {detail}", group="purity"))
+    # 1c purity of constructed objects
+    cres = core.pmap(constructed_work, list(g.COMPOSITE_CONSTRUCTS), chunksize=2)
+    con_n = sum(r[0] for r in cres)
+    for r in cres:
+        for cls, sig, detail in r[1]:
+            fl.append(core.Failure(prop="C15", sig=f"constructed|{cls}|{sig}", cls=cls, case={"kind": "c15-constructed", "construct": sig.split("|")[0]}, detail=detail, group="purity"))
     # 2 schedules
     bound3 = tier != "quick"
     units = [
@@ -446,14 +569,15 @@ def run(prop: str, tier: str) -> core.Report:
         "transitions": total_sched + e2_n + len(perm_orders) * k + 3 * len(pool),
         "traces_validated_against_impl": total_sched + len(perm_orders) + 3,
         "samples": [{"harness": n, **v} for n, v in list(sched_cov.items())[:3]] + [{"history_order": list(perm_orders[core.seed() % len(perm_orders)])}, {"pool_document": pool[core.seed() % len(pool)]}],
-        "evaluations": a.coverage["evaluations"] + e2_n + total_sched + len(perm_orders) + len(cfg) + 4 * len(pool),
+        "evaluations": a.coverage["evaluations"] + e2_n + con_n + total_sched + len(perm_orders) + len(cfg) + 4 * len(pool),
         "distinct_nontrivial": a.coverage["distinct_nontrivial"] + e2_states + total_sched,
-        "rule": "purity: every admitted E1 quick case and every state of the depth-2 edit graph of the purity documents (snapshot before/after rebuild, 3 rebuilds); schedules: every schedule of each harness with at most the stated number of preemptions (scheduling points = bytecode accesses to census objects); histories: all %d! orders of %d documents in one process vs fresh-process results, and a pool of small documents (every construct x comment placement, literal kinds in sequence positions) processed forward, in reverse and interleaved in one process vs each document alone in a forked pristine child; configurations: 4 hash seeds x 3 working directories, digest over %s input->output pairs" % (k, k, next(iter(cfg.values())).get("n", "?")),
+        "rule": "purity: every admitted E1 quick case and every state of the depth-2 edit graph of the purity documents (snapshot before/after rebuild, 3 rebuilds), and every composite construct with each of its `x` leaves replaced by each programmatically constructed value (lists / sets / scalars with undecided layout); schedules: every schedule of each harness with at most the stated number of preemptions (scheduling points = bytecode accesses to census objects); histories: all %d! orders of %d documents in one process vs fresh-process results, and a pool of small documents (every construct x comment placement, literal kinds in sequence positions) processed forward, in reverse and interleaved in one process vs each document alone in a forked pristine child; configurations: 4 hash seeds x 3 working directories, digest over %s input->output pairs" % (k, k, next(iter(cfg.values())).get("n", "?")),
         "exhaustive": not any(v["capped"] for v in sched_cov.values()),
         "schedule_harnesses": sched_cov,
         "census": census_report,
         "purity_e1": {k2: a.coverage[k2] for k2 in ("evaluations", "admitted", "outcomes")},
         "purity_e2": {"states": e2_states, "successful_transitions": e2_n},
+        "purity_constructed": {"cases": con_n, "constructs": len(g.COMPOSITE_CONSTRUCTS), "values": sorted(CONSTRUCTED)},
         "history_orders": len(list(itertools.permutations(range(k)))),
         "pool_histories": {"documents": len(pool), "orders": [n for n, _ in orders], "differences": pool_bad},
         "configurations": {f"{k2[0]}@{k2[1]}": v for k2, v in cfg.items()},
@@ -493,5 +617,11 @@ def replay(case, prop):
         return bool(bad), f"{bad}"
     if k == "c15-e2":
         return True, "re-run ./check C15 quick (purity over the edit graph)"
+    if k == "c15-constructed":
+        n, fails = constructed_work(case["construct"])
+        n2, fails2 = constructed_work(case["construct"])
+        if fails != fails2:
+            raise SystemExit("non-deterministic replay")
+        return bool(fails), f"{fails[:3]}"
     cfg = config_digests()
     return len({json.dumps(v, sort_keys=True) for v in cfg.values()}) != 1, f"{cfg}"
